@@ -13,14 +13,11 @@ import (
 	"net/http"
 	"net/url"
 	"os"
-	"reflect"
 	"sort"
 	"strings"
-	"unsafe"
 
 	"github.com/whoisnian/glb/httpd"
 	"verif/engine/vcommon"
-	"verif/engine/vstate"
 )
 
 // ---------------------------------------------------------------- reference router (from the statement)
@@ -39,7 +36,9 @@ type refNode struct {
 	routes map[string]*refRoute // by method
 }
 
-func newRefNode() *refNode { return &refNode{lit: map[string]*refNode{}, routes: map[string]*refRoute{}} }
+func newRefNode() *refNode {
+	return &refNode{lit: map[string]*refNode{}, routes: map[string]*refRoute{}}
+}
 
 func refInsert(root *refNode, r *refRoute) {
 	n := root
@@ -249,14 +248,12 @@ func (b *bench) build(table []int) (mux *httpd.Mux, ok bool) {
 	return mux, true
 }
 
-func trieDump(mux *httpd.Mux) string {
-	v := reflect.ValueOf(mux).Elem().FieldByName("root")
-	if !v.IsValid() {
-		return ""
-	}
-	v = reflect.NewAt(v.Type(), unsafe.Pointer(v.UnsafeAddr())).Elem()
-	return vstate.Dump(v.Interface())
-}
+// nullWriter is a ResponseWriter that accepts everything.
+type nullWriter struct{ h http.Header }
+
+func (w *nullWriter) Header() http.Header         { return w.h }
+func (w *nullWriter) Write(p []byte) (int, error) { return len(p), nil }
+func (w *nullWriter) WriteHeader(int)             {}
 
 func (b *bench) serve(mux *httpd.Mux, path, method string) (o *obs) {
 	o = &obs{}
@@ -266,7 +263,7 @@ func (b *bench) serve(mux *httpd.Mux, path, method string) (o *obs) {
 			o.paniced = r
 		}
 	}()
-	mux.ServeHTTP(nil, &http.Request{Method: method, URL: &url.URL{Path: path}, RequestURI: path})
+	mux.ServeHTTP(&nullWriter{h: http.Header{}}, &http.Request{Method: method, URL: &url.URL{Path: path}, RequestURI: path, Header: http.Header{}})
 	return o
 }
 
@@ -301,7 +298,6 @@ func (b *bench) checkTable(table []int, paths []string, st *stats) {
 		}
 		return "{" + strings.Join(d, ", ") + "}"
 	}
-	perms := permutations(table)
 	if !ok {
 		// a table that is rejected must be rejected in every order only if the cause is order-independent
 		// (duplicate route); we just count it
@@ -309,16 +305,24 @@ func (b *bench) checkTable(table []int, paths []string, st *stats) {
 		return
 	}
 	st.Tables++
-	d0 := trieDump(mux)
-	for _, p := range perms[1:] {
-		m2, ok2 := b.build(p)
-		st.OrderChecks++
-		if !ok2 || trieDump(m2) != d0 {
-			st.Viols = append(st.Viols, vcommon.Violation{Scenario: "registration-order", Fingerprint: "order|" + desc(),
-				Message: fmt.Sprintf("C04: registering %s in order %v gives a different routing table than in order %v", desc(), p, table), Witness: map[string]any{"table": desc()}})
+	// every registration order of the same set is judged against the documented walk: the
+	// statement speaks of the set of registered routes, whatever the order they came in
+	for pi, p := range permutations(table) {
+		if pi > 0 {
+			m2, ok2 := b.build(p)
+			st.OrderChecks++
+			if !ok2 {
+				continue // registration itself is not this property's subject
+			}
+			mux, table = m2, p
+		}
+		if !b.judgeTable(mux, table, desc(), paths, st, pi == 0) {
 			return
 		}
 	}
+}
+
+func (b *bench) judgeTable(mux *httpd.Mux, table []int, desc string, paths []string, st *stats, first bool) bool {
 	root := newRefNode()
 	var refs []*refRoute
 	for _, i := range table {
@@ -331,18 +335,18 @@ func (b *bench) checkTable(table []int, paths []string, st *stats) {
 			st.Dispatches++
 			o := b.serve(mux, path, method)
 			fail := func(msg string) {
-				st.Viols = append(st.Viols, vcommon.Violation{Scenario: "dispatch", Fingerprint: fmt.Sprintf("%s|%q|%s", desc(), path, method),
-					Message:  fmt.Sprintf("C04: table %s, request %s %q: %s", desc(), method, path, msg),
-					Witness:  map[string]any{"table": desc(), "path": path, "method": method},
+				st.Viols = append(st.Viols, vcommon.Violation{Scenario: "dispatch", Fingerprint: fmt.Sprintf("%s|%q|%s", desc, path, method),
+					Message:  fmt.Sprintf("C04: table %s, request %s %q: %s", desc, method, path, msg),
+					Witness:  map[string]any{"table": desc, "path": path, "method": method},
 					ReplayGo: replayGo(b, table, path, method)})
 			}
 			if o.paniced != nil {
 				fail(fmt.Sprintf("ServeHTTP panicked: %v", o.paniced))
-				return
+				return false
 			}
 			if len(o.calls) != 1 {
 				fail(fmt.Sprintf("%d handlers ran (%v), want exactly one", len(o.calls), o.calls))
-				return
+				return false
 			}
 			if !strings.HasPrefix(path, "/") && path != "" {
 				// segmentation of a path without leading slash is not defined by the statement:
@@ -355,12 +359,12 @@ func (b *bench) checkTable(table []int, paths []string, st *stats) {
 				st.NoRoute++
 				if o.calls[0] != -1 {
 					fail(fmt.Sprintf("handler of route #%d (%s %s) ran, the documented walk finds no route", o.calls[0], b.specs[o.calls[0]].method, b.specs[o.calls[0]].pattern))
-					return
+					return false
 				}
 				for n, v := range o.params {
 					if v != "" {
 						fail(fmt.Sprintf("no-route handler sees RouteParam(%q)=%q", n, v))
-						return
+						return false
 					}
 				}
 				continue
@@ -372,11 +376,11 @@ func (b *bench) checkTable(table []int, paths []string, st *stats) {
 					got = fmt.Sprintf("route %s %s", b.specs[o.calls[0]].method, b.specs[o.calls[0]].pattern)
 				}
 				fail(fmt.Sprintf("%s ran, the documented precedence selects %s %s", got, want.method, want.pattern))
-				return
+				return false
 			}
 			if o.info == nil || o.info.Path != want.pattern || o.info.Method != want.method {
 				fail(fmt.Sprintf("Store.I = %+v, want the info of %s %s", o.info, want.method, want.pattern))
-				return
+				return false
 			}
 			wantParams := map[string]string{}
 			wantAny := ""
@@ -391,27 +395,28 @@ func (b *bench) checkTable(table []int, paths []string, st *stats) {
 				w := wantParams[n]
 				if o.params[n] != w {
 					fail(fmt.Sprintf("RouteParam(%q)=%q, want %q", n, o.params[n], w))
-					return
+					return false
 				}
 			}
 			if o.any != wantAny {
 				fail(fmt.Sprintf("RouteParamAny()=%q, want %q", o.any, wantAny))
-				return
+				return false
 			}
 			if st.Outcomes != nil {
 				st.Outcomes[fmt.Sprintf("%s %s", want.method, want.pattern)]++
 			}
 		}
 	}
+	return true
 }
 
 func replayGo(b *bench, table []int, path, method string) string {
 	var sb strings.Builder
-	sb.WriteString("package httpd_test\n\nimport (\n\t\"net/http\"\n\t\"net/url\"\n\t\"testing\"\n\n\t\"github.com/whoisnian/glb/httpd\"\n)\n\nfunc TestReplayC04(t *testing.T) {\n\tmux := httpd.NewMux()\n\tvar ran []string\n\tmux.HandleNoRoute(func(s *httpd.Store) { ran = append(ran, \"no-route\") })\n")
+	sb.WriteString("package httpd_test\n\nimport (\n\t\"net/http\"\n\t\"net/http/httptest\"\n\t\"net/url\"\n\t\"testing\"\n\n\t\"github.com/whoisnian/glb/httpd\"\n)\n\nfunc TestReplayC04(t *testing.T) {\n\tmux := httpd.NewMux()\n\tvar ran []string\n\tmux.HandleNoRoute(func(s *httpd.Store) { ran = append(ran, \"no-route\") })\n")
 	for _, i := range table {
 		fmt.Fprintf(&sb, "\tmux.Handle(%q, %q, func(s *httpd.Store) { ran = append(ran, %q) })\n", b.specs[i].pattern, b.specs[i].method, b.specs[i].method+" "+b.specs[i].pattern)
 	}
-	fmt.Fprintf(&sb, "\tmux.ServeHTTP(nil, &http.Request{Method: %q, URL: &url.URL{Path: %q}})\n\tt.Logf(\"handlers run: %%v\", ran)\n}\n", method, path)
+	fmt.Fprintf(&sb, "\tmux.ServeHTTP(httptest.NewRecorder(), &http.Request{Method: %q, URL: &url.URL{Path: %q}, Header: http.Header{}})\n\tt.Logf(\"handlers run: %%v\", ran)\n}\n", method, path)
 	return sb.String()
 }
 
